@@ -246,7 +246,17 @@ impl<H: DnsHandle> DnssecDnsHandle<H> {
                     && rrset.signatures.iter().all(|x| x.proof == Proof::Insecure)
             })
         {
-            return Ok(message);
+            // Insecure authority records only say that *their* zone is insecure. They settle the
+            // response only if the query name itself lies in a provably insecure zone; otherwise
+            // anybody could deny a signed name by attaching records of some unsigned zone.
+            let name = match query.query_type {
+                RecordType::DS => query.name.base_name(),
+                _ => query.name.clone(),
+            };
+            if matches!(self.find_ds_records(name, options).await, Err(err) if err.proof == Proof::Insecure)
+            {
+                return Ok(message);
+            }
         }
 
         let nsec3s = message
@@ -318,8 +328,17 @@ impl<H: DnsHandle> DnssecDnsHandle<H> {
                 Proof::Bogus
             }
             (false, false, false) => {
-                // Return Ok if there were no NSEC/NSEC3 records and no wildcard RRSIGs.
-                if !message.answers.is_empty() {
+                // Return Ok if there were no NSEC/NSEC3 records and no wildcard RRSIGs, provided the
+                // answer section does answer the question: a record (not just an RRSIG) of the
+                // queried type, or a CNAME, at the query name. Anything else in the answer section
+                // (the RRSIG of a removed RRset, records of other names) is no answer and no denial.
+                if message.answers.iter().any(|r| {
+                    r.name == query.name
+                        && (r.record_type() == query.query_type
+                            || r.record_type() == RecordType::CNAME
+                            || (query.query_type == RecordType::ANY
+                                && r.record_type() != RecordType::RRSIG))
+                }) {
                     return Ok(message);
                 }
 
